@@ -478,3 +478,37 @@ def value_classes(idx, t, v, depth=0):
         kd = idx.get(b[1], b[2])
         out.add('struct_tag' if kd['k'] == 'struct' else 'union_of_union')
     return out | value_classes(idx, tg['type'], v[3], depth)
+
+
+def norm_roundtrip(idx, t, v):
+    """The documented normalisations of a JSON round trip: a nullable struct-valued union member
+    whose struct serialises to {} comes back as null (json_serializer.rst, "Nullable")."""
+    k = t[0]
+    if v is None:
+        return None
+    if k == 'alias':
+        return norm_roundtrip(idx, idx.get(t[1], t[2])['type'], v)
+    if k == 'nullable':
+        return norm_roundtrip(idx, t[1], v)
+    if k == 'prim':
+        return v
+    if k == 'list':
+        return [norm_roundtrip(idx, t[1], x) for x in v]
+    if k == 'map':
+        return {key: norm_roundtrip(idx, t[2], x) for key, x in v.items()}
+    if v[0] == 'struct':
+        ns, name = v[1]
+        d = idx.get(ns, name)
+        ft = {f['name']: f['type'] for _, _, f in idx.struct_all_fields(ns, d)}
+        return ('struct', v[1], {n: norm_roundtrip(idx, ft[n], x) for n, x in v[2].items()})
+    ns, name = v[1]
+    d = idx.get(ns, name)
+    tg = [x for _, _, x in idx.union_all_tags(ns, d) if x['name'] == v[2]][0]
+    if tg['type'] is None or v[3] is None:
+        return v
+    inner = norm_roundtrip(idx, tg['type'], v[3])
+    b = idx.base(tg['type'])
+    if idx.is_nullable(tg['type']) and b[0] == 'ref' and isinstance(inner, tuple) and inner[0] == 'struct' \
+            and not inner[2] and not idx.get(b[1], b[2]).get('subtypes'):
+        inner = None
+    return ('union', v[1], v[2], inner)
